@@ -46,7 +46,7 @@ package impl
 //@   ensures [send-failure] completeErr == nil && ret(GetByID, 1) == nil && chid.Initiator != m.peerID && calls(SendMessage) == 1 && ret(SendMessage, 0) != nil ==>
 //@       seq(SendMessage, manager.OnRequestDisconnected) && called(manager.OnRequestDisconnected, _, chid)
 
-//@ func (*impl.manager).OnResponseReceived {C03,C11,C19,C02}
+//@ func (*impl.manager).OnResponseReceived {C03,C11,C19,C02,C01}
 //@   requires response != nil
 //@   ensures [cancel] response.IsCancel() ==> seq(Channels.Cancel) && called(Channels.Cancel, _, chid)
 //@   ensures [rejected] !response.IsCancel() && response.IsValidationResult() && !response.Accepted() ==>
@@ -513,7 +513,7 @@ package impl
 //@           calls(Transport.OpenChannel) == 1 && never(DataTransferNetwork.SendMessage) : calls(DataTransferNetwork.SendMessage) == 1 && never(Transport.OpenChannel))
 //@       -- the reply to an accepted push (new or restart) travels with the graphsync request this side opens; every other reply is sent as a message
 
-//@ func (*impl.receiver).receiveResponse {C05,C11,C03}
+//@ func (*impl.receiver).receiveResponse {C05,C11,C03,C01}
 //@   acquires {C20} graphsync.Transport.dtChannelsLk, graphsync.dtChannel.lk, tracing.SpansIndex.spansLk
 //@   requires incoming != nil
 //@   ensures [derived-id] first(manager.OnResponseReceived, $1 == datatransfer.ChannelID{Initiator: r.manager.peerID, Responder: sender, ID: incoming.TransferID()} && $2 == incoming) &&
@@ -544,7 +544,7 @@ package impl
 // ---------------------------------------------------------------------------------------------
 // events.go (data flow) and opening
 
-//@ func (*impl.manager).OnDataReceived {C07,C08}
+//@ func (*impl.manager).OnDataReceived {C07,C08,C01}
 //@   acquires {C20} channels.blockIndexCache.lk, channels.progressCache.lk, tracing.SpansIndex.spansLk
 //@   requires [cid-links] link != nil && dyntype_is(link, cidlink.Link) -- configuration assumption: transports report cidlink.Link
 //@   ensures [forward] first(Channels.DataReceived, $1 == chid && $3 == size && $4 == index && $5 == unique) && calls(Channels.DataReceived) == 1
@@ -553,7 +553,7 @@ package impl
 //@   ensures [no-notice-otherwise] ret(Channels.DataReceived, 0) != datatransfer.ErrPause ==> seq(Channels.DataReceived) && result == ret(Channels.DataReceived, 0)
 //@   ensures [pause-result] ret(Channels.DataReceived, 0) == datatransfer.ErrPause && calls(DataTransferNetwork.SendMessage) == 1 && ret(DataTransferNetwork.SendMessage, 0) == nil ==> result == datatransfer.ErrPause
 
-//@ func (*impl.manager).OnDataQueued {C07,C08}
+//@ func (*impl.manager).OnDataQueued {C07,C08,C01}
 //@   acquires {C20} channels.blockIndexCache.lk, channels.progressCache.lk, tracing.SpansIndex.spansLk
 //@   requires [cid-links] link != nil && dyntype_is(link, cidlink.Link) -- configuration assumption: transports report cidlink.Link
 //@   ensures [forward] seq(Channels.DataQueued) && all(Channels.DataQueued, $1 == chid && $3 == size && $4 == index && $5 == unique)
@@ -561,7 +561,7 @@ package impl
 //@   ensures [pause-message] err == datatransfer.ErrPause ==> result0 != nil && !result0.IsRequest() && result0.IsUpdate() && result0.IsPaused() && result0.TransferID() == chid.ID
 //@   ensures [no-message-otherwise] err != datatransfer.ErrPause ==> result0 == nil
 
-//@ func (*impl.manager).OnDataSent {C07}
+//@ func (*impl.manager).OnDataSent {C07,C01}
 //@   acquires {C20} channels.blockIndexCache.lk, channels.progressCache.lk, tracing.SpansIndex.spansLk
 //@   requires [cid-links] link != nil && dyntype_is(link, cidlink.Link)
 //@   ensures [forward] seq(Channels.DataSent) && all(Channels.DataSent, $1 == chid && $3 == size && $4 == index && $5 == unique) && result == ret(Channels.DataSent, 0)
